@@ -102,7 +102,8 @@ def pool(kind, rng, n):
             if rng.random() < 0.4:
                 s += "." + digits(rng, 1, 6)
             out.append((s, A))
-        out += [(x, R) for x in ["", "24:00:00", "12:60:00", "12:00:60", "99:99:99", "noon", "ab:cd:ef", "12h30", "12:00:00pm", "12:00:00am", "twelve", "12.00.00a", "12:00:00#"]]
+        out += [(x, R) for x in ["", "24:00:00", "12:60:00", "12:00:60", "99:99:99", "noon", "ab:cd:ef", "12h30", "12:00:00pm", "12:00:00am", "twelve", "12.00.00a", "12:00:00#",
+                                   "12:00:00ZZ", "12:00ZZZ", "12:00:00-06:00Z", "12:00:00Z+01:00", "12:00Z:00", "12T00:00", "12:00:00ZT"]]
         for _ in range(n // 3):
             out.append((f"{rng.randint(24, 99):02d}:{rng.randrange(60):02d}:{rng.randrange(60):02d}", R))
             out.append((f"{rng.randrange(24):02d}:{rng.randint(60, 99):02d}:{rng.randrange(60):02d}", R))
